@@ -662,13 +662,19 @@ def run_r8(ctx, rule):
         for bb, t in f.calls():
             cn = norm(util.cname(t))
             m = cn.rsplit("::", 1)[-1]
-            if "HashMap" not in cn or m not in ("insert", "contains_key", "get", "get_mut", "remove", "entry") or len(t["args"]) < 2:
+            if "HashMap" not in cn or m not in ("insert", "contains_key", "get", "get_mut", "remove", "remove_entry", "entry", "retain", "clear", "drain") or (len(t["args"]) < 2 and m not in ("clear", "drain")):
                 continue
             p0 = t["args"][0].get("mv") or t["args"][0].get("cp")
             ty = f.locals[p0["l"]].get("s", "") if p0 else ""
             if "LitDef" not in ty:
                 continue
             sites.append((f, bb, m, _key_class(sy.operand(t["args"][1])), sy))
+    # the table is built once (Aig::lit_defs) and only asked afterwards: a walk that takes definitions out of it cannot
+    # find them again when it comes back to a gate (the second lap of a cycle, a gate shared by two roots)
+    for f, bb, m, k, _sy in sites:
+        if m in ("remove", "remove_entry", "get_mut", "entry", "retain", "clear", "drain") or (m == "insert" and not norm(f.id).endswith("Aig::lit_defs")):
+            rule.bad("%s/%s/table-changed" % (norm(f.id), m), "%s changes the definition table through %s: it is built by lit_defs and read-only afterwards" % (short(norm(f.id)), m), f.loc(bb))
+    sites = [x for x in sites if x[2] in ("insert", "contains_key", "get")]
     ins = [x for x in sites if x[2] == "insert"]
     if len(ins) < 3 or len(sites) < 6:
         rule.bad("defs/sites", "only %d inserts / %d uses of the definition table found (3 / 6 counted)" % (len(ins), len(sites)), kind="anchor-missing")
